@@ -7,6 +7,10 @@ if git apply --check "$P" 2>/dev/null; then git apply "$P"
 elif git apply -C1 --check "$P" 2>/dev/null; then git apply -C1 "$P"
 elif git apply -3 "$P" 2>/dev/null && ! git status --short | grep -q '^U'; then :
 else git reset -q --hard HEAD; echo "PATCH-DOES-NOT-APPLY $P"; exit 3; fi
-( cd /verif && bin/check "$ID" --tier "$TIER" 2>&1 | tail -${TAILN:-6} )
+# the evidence file must describe the unchanged tree: keep it aside while the seeded tree is checked
+EV=/verif/evidence/$ID.json; [ -f $EV ] && cp $EV /tmp/.evkeep.$$.$ID
+( cd /verif && timeout ${SEED_TIMEOUT:-1500} bin/check "$ID" --tier "$TIER" 2>&1 | tail -${TAILN:-6} )
+[ -f /tmp/.evkeep.$$.$ID ] && mv /tmp/.evkeep.$$.$ID $EV
+rm -rf /verif/replays/$ID
 git -C /repo reset -q --hard HEAD; git -C /repo clean -fdq
 git -C /repo status --short | head -3
